@@ -852,6 +852,59 @@ def instances(tier):       # noqa: F811
 _instances_before_simplex = instances
 
 
+def offset_data_bounded_instance():
+    """The Gaussian estimators on data whose offset is large against its spread (levels in dB, absolute positions, time stamps): the
+    weighted mean and the pooled weighted scatter about that mean, for every covariance structure, with and without saliency and
+    leading axes, through the stand-alone trainer and one M-step of the mixture -- against a two-pass evaluation in extended
+    precision.  (E[y y^T] - m m^T is the same matrix over the reals and loses (offset / spread)^2 eps of it.)"""
+    from pb_bss.distribution import GaussianTrainer, GMMTrainer
+
+    def make(B):
+        return {'ct': B.choose('ct', ['full', 'diagonal', 'spherical']), 'off': B.choose('off', [0.0, 1e2, 1e4, 1e6]), 'lead': B.choose('lead', [(), (2,)]),
+                'sal': B.choose('sal', [False, True]), 'via': B.choose('via', ['trainer', 'gmm']), 'seed': B.choose('seed', list(range(3000))), 'd': B.given('d', np.zeros(1))}
+
+    def call(inp):
+        rng = np.random.RandomState(inp['seed'])
+        lead, D, N = tuple(inp['lead']), int(rng.randint(1, 5)), 40
+        spread = rng.uniform(0.5, 3.0, size=lead + (1, D))
+        y = inp['off'] * rng.choice([-1.0, 1.0], size=lead + (1, D)) * rng.uniform(0.5, 2.0, size=lead + (1, D)) + spread * rng.normal(size=lead + (N, D))
+        sal = rng.uniform(0.2, 2.0, size=lead + (N,)) if inp['sal'] else None
+        if inp['via'] == 'trainer':
+            m = GaussianTrainer().fit(y, saliency=sal, covariance_type=inp['ct'])
+            w = np.ones(lead + (N,)) if sal is None else sal
+            return {'mean': np.asarray(m.mean), 'cov': np.asarray(m.covariance), 'y': y, 'w': w[..., None, :], 'K': None}
+        K = 2
+        yy = y if lead else y[None]
+        ss = None if sal is None else (sal if lead else sal[None])
+        g0 = rng.dirichlet(np.ones(K), size=yy.shape[:-1])
+        g0 = np.moveaxis(g0, -1, -2).copy()
+        m = GMMTrainer().fit(yy, initialization=g0, iterations=1, saliency=ss, covariance_type=inp['ct'])
+        w = g0 * (1.0 if ss is None else ss[..., None, :])
+        return {'mean': np.asarray(m.gaussian.mean), 'cov': np.asarray(m.gaussian.covariance), 'y': yy, 'w': w, 'K': K}
+
+    def ensures(sp, inp, out):
+        y, w = out['y'].astype(np.longdouble), out['w'].astype(np.longdouble)          # w: (..., K or 1, N)
+        tot = w.sum(-1)
+        mean = (w[..., None] * y[..., None, :, :]).sum(-2) / tot[..., None]           # (..., K, D)
+        c = y[..., None, :, :] - mean[..., None, :]
+        scat = np.einsum('...n,...nd,...ne->...de', w, c, c) / tot[..., None, None]     # (..., K, D, D)
+        D = y.shape[-1]
+        if inp['ct'] == 'diagonal':
+            want = np.diagonal(scat, axis1=-1, axis2=-2)
+        elif inp['ct'] == 'spherical':
+            want = np.trace(scat, axis1=-1, axis2=-2) / D
+        else:
+            want = scat
+        got_m, got_c = out['mean'], out['cov']
+        if out['K'] is None:
+            mean, want = mean[..., 0, :], want[..., 0, :, :] if inp['ct'] == 'full' else (want[..., 0, :] if inp['ct'] == 'diagonal' else want[..., 0])
+        scale = float(np.max(np.abs(want)))
+        yield 'weighted-mean[offset=%g]' % inp['off'], bool(got_m.shape == mean.shape and np.allclose(got_m, mean.astype(float), rtol=1e-12, atol=1e-12))
+        yield 'pooled-weighted-scatter-about-the-mean[%s,offset=%g]' % (inp['ct'], inp['off']), bool(got_c.shape == want.shape and np.allclose(got_c, want.astype(float), rtol=1e-7, atol=1e-7 * scale))
+
+    return Instance('C08', DN + 'gaussian:GaussianTrainer.fit', 'bounded-data-with-a-large-offset', make, call, ensures, mode='bounded', bounded_n=100, frame=False)
+
+
 def instances(tier):       # noqa: F811
     from .common import simplex_lemma_instances
-    return _instances_before_simplex(tier) + simplex_lemma_instances('C08')
+    return _instances_before_simplex(tier) + [offset_data_bounded_instance()] + simplex_lemma_instances('C08')
